@@ -9,6 +9,7 @@ import sys
 import traceback
 
 CHECKS = {
+    "C18": ("harness.checks.c18", "C18"),
     "C13": ("harness.checks.relayfam", "C13"),
     "C05": ("harness.checks.relayfam", "C05"),
     "C01": ("harness.checks.queryfam", "C01"),
